@@ -106,6 +106,9 @@ def run_check(prop, tier, seed, replay=None):
                     # fields this property depends on
                     from harness import optglue
                     optglue.stateless(ctx, prop)
+                    if prop in ("C03", "C04", "C05", "C12", "C13", "C16"):
+                        from harness import corr_world
+                        corr_world.same_world_twice(ctx, prop)
             except common.InternalError:
                 raise
             except (Exception, SystemExit) as e:  # noqa: BLE001
